@@ -523,6 +523,7 @@ func genRunAPI(tier, tmpRoot string) ([]*tcase, []result) {
 		}},
 	)
 	// the exit "all statements succeeded, the read afterwards failed" for every command shape
+	r3From := len(bases) // (quick: these bases meet a selection of the start states, see 1.)
 	setStmt := func(sc []mstmt, k int, st stmt) { sc[k].s = st }
 	for _, norm := range []string{"r", "s"} {
 		norm := norm
@@ -622,9 +623,14 @@ func genRunAPI(tier, tmpRoot string) ([]*tcase, []result) {
 	)
 	// 1. every base x every start state, no injected fault (quick: the shapes that open a
 	//    normalisation session, the others are covered by the cli stage)
-	for _, b := range bases {
+	r3Starts := map[string]bool{"absent": true, "empty": true, "bk-seq": true, "bk-seq-stat": true, "bk-wasm": true, "bk-wasm-idx": true,
+		"tables": true, "combo-V": true, "combo-H": true, "combo-GX": true, "unread-table": true, "unread-index": true, "unread-gen-view": true, "unread-hidden": true}
+	for bi, b := range bases {
 		for _, st := range starts {
 			if tier != "thorough" && !strings.Contains(b.name, "hcl") && strings.HasPrefix(st.name, "combo-") && len(st.name) > len("combo-X") {
+				continue
+			}
+			if tier != "thorough" && bi >= r3From && !r3Starts[st.name] {
 				continue
 			}
 			add(b.mk().setStart(st), "grid/"+b.name)
